@@ -589,6 +589,36 @@ impl Prop for C17 {
             out.push(make_request(e, 1, "ext", &train_text(&probe.to_string_lossy()), true));
         }
         stats.add("exhaustive_kinds_x_entries_x_states", out.len() as u64);
+        // malformed requests that reach the different diagnostics of the error formatter, with one multi-byte character
+        // inserted at EVERY character position in turn (whatever the formatter slices or counts, it must stay on char
+        // boundaries and return an error, not crash)
+        let bases = [
+            "SELECT ?s { ?s ?p ?o",
+            "SELECT ?s WHERE { ?s <urn:p> ?o ",
+            "SELECT ?s WHERE { ?s <urn:p> \"abc }",
+            "SELECT ?s WHERE { ?s zz:p ?o zz:q }",
+            "SELECT ?s WHERE { ?s <urn:p> ?oo ?ww }",
+            "SELECT ?s WHERE { ?s <urn:p> ?o } LIMIT ?x",
+            "SELECT ?s WHERE { ?s <urn:p> ?o } ORDER BY junk more_junk",
+            "INSERT DATA { <urn:a> <urn:b> }",
+            "DELETE WHERE { ?s ?p }",
+            "PREFIX ex: <urn:e> SELECT ?s WHERE { ?s ex:p ?o ?q_1 }",
+        ];
+        let inserts: &[&str] = if tier == Tier::Quick { &["\u{e9}", "\u{1F600}"] } else { &["\u{e9}", "\u{20ac}", "\u{1F600}", "\u{e9}\u{e9}"] };
+        let n0 = out.len();
+        for b in bases {
+            let chars: Vec<char> = b.chars().collect();
+            for ins in inserts {
+                for pos in 0..=chars.len() {
+                    let mut t: String = chars[..pos].iter().collect();
+                    t.push_str(ins);
+                    t.extend(chars[pos..].iter());
+                    let e = if (pos + ins.len()) % 2 == 0 { "q" } else { "u" };
+                    out.push(make_request(e, 0, "unk", &t, true));
+                }
+            }
+        }
+        stats.add("diagnostic_multibyte_sweep", (out.len() - n0) as u64);
         out
     }
     fn gen(&self, r: &mut Rng, _tier: Tier, i: usize, stats: &mut Stats) -> String {
